@@ -264,6 +264,11 @@ func (e *Engine) fireTimer(st *State, i int) {
 	t.Armed = false
 	st.Timers[i] = t
 	st.Events = append(st.Events, Event{Kind: "timer-fired", Args: []Value{BVC(uint64(t.ID), 64)}})
+	if t.ArmClock != nil && t.Dur != nil && !e.Cfg.ConcreteClock {
+		// clock consistency: from now on time.Now() is later than arm time + duration
+		n := e.now(st)
+		st.Assume(BVSlt(BVAdd(t.ArmClock, t.Dur), n))
+	}
 	if t.Chan != 0 {
 		co := *st.Heap[t.Chan].(*ChanObj)
 		if len(co.Buf) < co.Cap {
@@ -454,9 +459,15 @@ func registerMisc(e *Engine) {
 		// environment event: deadline expiry
 		e := c.E
 		id := len(c.St.Timers)
-		c.St.Timers = append(c.St.Timers, Timer{ID: id, Armed: true, Order: id, Kind: "ctx-deadline", OnFire: func(s *State) {
+		tm := Timer{ID: id, Armed: true, Order: id, Kind: "ctx-deadline", OnFire: func(s *State) {
 			e.cancelCtx(s, cp, e.ctxErrGlobal(s, "DeadlineExceeded"))
-		}})
+		}}
+		if c.Fn.Name() == "WithTimeout" {
+			// the deadline cannot expire before arm time + duration on the program's own clock
+			tm.Dur = c.argTerm(1)
+			tm.ArmClock = e.now(c.St)
+		}
+		c.St.Timers = append(c.St.Timers, tm)
 		c.St.Ghost[fmt.Sprintf("ctxtimer:%d", cp.Obj)] = BVC(uint64(id), 64)
 		return c.Return(Tuple{ctx, c.E.cancelClosure(c.St, cp)})
 	}
